@@ -1,11 +1,16 @@
 (** C11 - Engine.IO framing round-trips and matches protocol v4 in every transport's form.
-    This file holds statements only; every proof is `exact <lemma>`. *)
+    This file holds statements only; every proof is `exact <lemma>`.
+
+    Vocabulary: [bytes_ok] = every element is a byte; [packet_ok] = NewPacket's invariant (type
+    0..6, binary only with MESSAGE) + data are bytes; a [stream] is a list of chunks (one Read
+    never crosses a chunk border), [rd] = [None] for the client's plain reader, [Some l] for the
+    server's limited reader with MaxBufferSize l (l <= 0: disabled); [next_packet] returns the
+    result and the trace of Read sizes and allocations. *)
 From SioV Require Import Eio.Base64 Eio.Codec Eio.Payload Eio.WTFrame.
-From SioV Require Import Eio.Base64Proofs Eio.CodecProofs.
+From SioV Require Import Eio.Base64Proofs Eio.CodecProofs Eio.PayloadProofs Eio.WTFrameProofs Eio.CodecSpec.
 Local Open Scope N_scope.
 
-(** base64 (the Go StdEncoding encoder and decoder written in Gallina): every byte string
-    survives. *)
+(** base64 (Go's StdEncoding encoder and decoder written in Gallina): every byte string survives. *)
 Theorem C11_b64_roundtrip : forall s, bytes_ok s = true -> b64_dec (b64_enc s) = Some s.
 Proof. exact b64_roundtrip. Qed.
 
@@ -27,11 +32,110 @@ Theorem C11_packet_roundtrip_b64 : forall p,
   decode_packet false (encode_packet false p) = Ok p.
 Proof. exact packet_roundtrip_b64. Qed.
 
-(** The advertised length (Packet.EncodedLen, used for frame headers and batching) is the number
-    of bytes Encode writes. *)
+(** Long-polling payloads: every non-empty list of packets whose text data are free of the
+    record separator survives (binary data may contain anything: they travel as base64). *)
+Theorem C11_payload_roundtrip : forall ps, ps <> [] ->
+  (forall p, In p ps -> packet_ok p = true /\ (p_binary p = false -> ~ In delim (p_data p))) ->
+  decode_payload (encode_payload ps) = Ok ps.
+Proof. exact payload_roundtrip. Qed.
+
+(** The empty list is written as the empty body, which does not decode: protocol v4 has no
+    representation of "no packets" (a poll must never be answered with an empty batch). *)
+Theorem C11_empty_payload_is_error : encode_payload [] = [] /\ decode_payload [] = Err.
+Proof. exact empty_payload_is_error. Qed.
+
+(** The advertised lengths are the real ones: Packet.EncodedLen (frame headers, batching) and
+    EncodedPayloadsLen (Content-Length) equal the number of bytes written. *)
 Theorem C11_encoded_len_exact : forall sb p, zlen (encode_packet sb p) = encoded_len sb p.
 Proof. exact encoded_len_exact. Qed.
 
-(** Decoding arbitrary bytes never panics. *)
+Theorem C11_payload_len_exact : forall ps, zlen (encode_payload ps) = payload_len ps.
+Proof. exact payload_len_exact. Qed.
+
+(** WebTransport: a frame of any length below 2^63 is read back as the packet that was sent and
+    leaves the rest of the stream untouched - for every way the stream may be cut into reads,
+    for the client's reader and for the server's limited reader whenever the limit admits the
+    frame. *)
+Theorem C11_wt_roundtrip : forall r p s rest,
+  packet_ok p = true -> (encoded_len true p <= Z.of_N max_int)%Z ->
+  concat s = wt_send p ++ rest ->
+  exceeds r (Z.to_N (encoded_len true p)) = false ->
+  exists s' t, next_packet r s = (Ok (p, s'), t) /\ concat s' = rest.
+Proof. exact wt_roundtrip. Qed.
+
+(** ... and a frame longer than the configured limit is refused. *)
+Theorem C11_wt_limit_enforced : forall r p s rest,
+  (encoded_len true p <= Z.of_N max_int)%Z ->
+  concat s = wt_send p ++ rest ->
+  exceeds r (Z.to_N (encoded_len true p)) = true ->
+  fst (next_packet r s) = Err.
+Proof. exact wt_limit_enforced. Qed.
+
+(** Which length prefix is written for which length (boundaries 125/126 and 65535/65536). *)
+Theorem C11_wt_prefix_forms : forall (n : N) (bin : bool),
+  let flag := if bin then 128 else 0 in
+  (n < 126 -> wt_header n bin = [n + flag])
+  /\ (126 <= n < 65536 -> wt_header n bin = [126 + flag; n / 256; n mod 256])
+  /\ (65536 <= n -> wt_header n bin = (127 + flag) :: be_bytes 8 n /\ nlen (wt_header n bin) = 9).
+Proof. exact wt_prefix_forms. Qed.
+
+(** Decoding arbitrary bytes never panics: single frames, payload bodies, WebTransport streams
+    (any chunking, any limit). *)
 Theorem C11_decode_no_panic : forall bf data, decode_packet bf data <> Panic.
 Proof. exact decode_no_panic. Qed.
+
+Theorem C11_decode_payload_no_panic : forall buf, decode_payload buf <> Panic.
+Proof. exact decode_payload_no_panic. Qed.
+
+Theorem C11_wt_no_panic : forall r s, fst (next_packet r s) <> Panic.
+Proof. exact wt_no_panic. Qed.
+
+(** A frame header never makes the reader allocate beyond the configured limit: every buffer
+    allocated while reading a frame from any stream is within MaxBufferSize when one is set, and
+    - limit or not - is at most 64 KiB or twice the number of bytes the stream really holds. *)
+Theorem C11_wt_alloc_bounded : forall r s,
+  Forall (fun a =>
+            (forall l, r = Some l -> (0 < l)%Z -> (Z.of_N a <= l)%Z)
+            /\ (a <= max_prealloc \/ a <= 2 * nlen (concat s)))
+         (allocs_of (snd (next_packet r s))).
+Proof. exact wt_alloc_bounded. Qed.
+
+(** The bytes are those of Engine.IO protocol v4 (CodecSpec.v: the wire format written down from
+    the protocol document and RFC 4648, independently of the encoder). *)
+Theorem C11_wire_is_v4 :
+  (forall sb p, packet_ok p = true -> encode_packet sb p = spec_packet sb p)
+  /\ (forall ps, (forall p, In p ps -> packet_ok p = true) -> encode_payload ps = spec_payload ps)
+  /\ (forall p, packet_ok p = true -> wt_send p = spec_frame p).
+Proof. exact (conj packet_is_v4 (conj payload_is_v4 frame_is_v4)). Qed.
+
+(** What decodes as a text packet has exactly one spelling. *)
+Theorem C11_decode_text_canonical : forall data p,
+  decode_packet false data = Ok p -> p_binary p = false -> encode_packet false p = data.
+Proof. exact decode_text_canonical. Qed.
+
+(** ** Examples from the protocol document (and non-vacuity of the hypotheses) *)
+Definition hello := mkPacket false 4 (txt_hello).
+Definition bin1234 := mkPacket true 4 [1; 2; 3; 4].
+
+Example C11_ex_packet : encode_packet false hello = txt_4hello
+  /\ encode_packet false bin1234 = txt_b64_1234
+  /\ decode_packet false (txt_b64_1234) = Ok bin1234
+  /\ decode_packet false (txt_2probe) = Ok (mkPacket false 2 (txt_probe)).
+Proof. vm_compute. auto. Qed.
+
+Example C11_ex_payload :
+  encode_payload [hello; mkPacket false 2 []; mkPacket false 4 (txt_world)]
+    = txt_4hello ++ 30 :: txt_2 ++ 30 :: txt_4world
+  /\ encode_payload [hello; bin1234] = txt_4hello ++ 30 :: txt_b64_1234
+  /\ decode_payload (txt_4hello ++ 30 :: txt_b64_1234) = Ok [hello; bin1234].
+Proof. vm_compute. auto. Qed.
+
+Example C11_ex_frames :
+  wt_send hello = 6 :: txt_4hello
+  /\ wt_send bin1234 = [132; 1; 2; 3; 4]
+  /\ map (fun n => wt_header n false) [125; 126; 65535; 65536]
+     = [[125]; [126; 0; 126]; [126; 255; 255]; [127; 0; 0; 0; 0; 0; 1; 0; 0]]
+  /\ fst (next_packet (Some 4%Z) [[132; 1]; [2; 3; 4; 6]]) = Ok (bin1234, [[6]])
+  /\ fst (next_packet (Some 3%Z) [[132; 1]; [2; 3; 4; 6]]) = Err
+  /\ next_packet (Some 1000%Z) [[255; 0; 0; 0; 255; 0; 0; 0; 0; 1; 2]] = (Err, [EvRead 1; EvRead 8]).
+Proof. vm_compute. auto 10. Qed.
